@@ -1,4 +1,149 @@
+//! Access-logger lab: replay XAccessLoggerGen behaviours on a real `AccessPatternLogger` (and its
+//! clone, which shares the state).  One output record per call (see spec/XAccessLoggerTrace.tla).
+
 use crate::util::*;
-pub fn main(_args: &[String]) -> Res<()> {
-    Err("not built yet".into())
+use kyrodb_engine::access_logger::AccessPatternLogger;
+use kyrodb_engine::learned_cache::{AccessEvent, AccessType};
+use serde_json::{json, Value};
+use std::time::{Duration, SystemTime};
+
+const FUTURE: u64 = 1000; // seconds, age class 0
+const OLD: u64 = 100; // age class 2
+const ANCIENT: u64 = 100_000; // age class 3
+const WINDOWS: [Duration; 4] =
+    [Duration::from_secs(10), Duration::from_secs(1000), Duration::from_secs(1_000_000), Duration::MAX];
+
+fn stamp(a: u64) -> SystemTime {
+    let now = SystemTime::now();
+    match a {
+        0 => now + Duration::from_secs(FUTURE),
+        1 => now,
+        2 => now - Duration::from_secs(OLD),
+        _ => now - Duration::from_secs(ANCIENT),
+    }
+}
+
+/// age class of a retained event, seen from now (the classes are orders of magnitude apart)
+fn class(ts: SystemTime) -> u64 {
+    let now = SystemTime::now();
+    match now.duration_since(ts) {
+        Err(e) => {
+            if e.duration().as_secs() > FUTURE / 2 {
+                0
+            } else {
+                1
+            }
+        }
+        Ok(age) => {
+            if age.as_secs() < OLD / 2 {
+                1
+            } else if age.as_secs() < ANCIENT / 20 {
+                2
+            } else {
+                3
+            }
+        }
+    }
+}
+
+fn tup(e: &AccessEvent) -> Value {
+    let w = match e.access_type {
+        AccessType::Read => 0,
+        AccessType::Write => 1,
+    };
+    json!([e.doc_id, class(e.timestamp), w])
+}
+
+fn obs(lg: &AccessPatternLogger) -> Value {
+    let all: Vec<Value> = lg.get_all_events().iter().map(tup).collect();
+    let win: Vec<Vec<Value>> =
+        WINDOWS.iter().map(|w| lg.get_recent_window(*w).iter().map(tup).collect()).collect();
+    let s = lg.stats();
+    let len = lg.len();
+    json!({"all": all, "win": win, "len": len, "empty": lg.is_empty(), "cap": lg.capacity(),
+           "tot": s.total_accesses, "fl": s.total_flushes, "cur": s.current_events, "scap": s.capacity,
+           "div": (lg.hash_diversity() * len as f64).round() as u64})
+}
+
+fn run_one(bi: usize, b: &Value) -> Vec<String> {
+    let cap = b["cap"].as_u64().unwrap() as usize;
+    let ctor = b["ctor"].as_str().unwrap();
+    let iv_ms = if ctor == "new" { 600_000 } else { b["interval"].as_u64().unwrap() };
+    let mut out = Vec::new();
+    let clk = Stamps::new();
+    let t0 = clk.before();
+    let h0 = if ctor == "new" {
+        AccessPatternLogger::new(cap)
+    } else {
+        AccessPatternLogger::with_flush_interval(cap, Duration::from_millis(iv_ms))
+    };
+    let t1 = clk.after();
+    let h1 = h0.clone();
+    let filler = json!({"t": "-", "id": 0, "a": 0, "w": 0, "ids": []});
+    out.push(
+        json!({"ev": "reset", "run": bi, "cap": cap, "ctor": ctor, "iv": iv_ms * 1000, "op": filler, "ret": [],
+               "pn": "-", "t0": t0, "t1": t1, "obs": obs(&h1)})
+        .to_string(),
+    );
+    for s in b["steps"].as_array().unwrap() {
+        let d = s["d"].as_u64().unwrap_or(0);
+        if d > 0 {
+            std::thread::sleep(Duration::from_millis(d));
+        }
+        let (lg, other) = if s["h"].as_u64().unwrap_or(0) == 0 { (&h0, &h1) } else { (&h1, &h0) };
+        let t = s["t"].as_str().unwrap();
+        let id = s["id"].as_u64().unwrap_or(0);
+        let t0 = clk.before();
+        let ret: Vec<u64> = match t {
+            "log" => {
+                if s["via"].as_str() == Some("access") {
+                    lg.log_access(id, &[0.25, id as f32]);
+                } else {
+                    lg.log_doc_access(id);
+                }
+                vec![]
+            }
+            "batch" => {
+                let ids: Vec<u64> = s["ids"].as_array().unwrap().iter().map(|v| v.as_u64().unwrap()).collect();
+                vec![lg.log_doc_accesses(&ids) as u64]
+            }
+            "event" => {
+                lg.log_event(AccessEvent {
+                    doc_id: id,
+                    timestamp: stamp(s["a"].as_u64().unwrap()),
+                    access_type: if s["w"].as_u64() == Some(1) { AccessType::Write } else { AccessType::Read },
+                });
+                vec![]
+            }
+            "clear" => {
+                lg.clear();
+                vec![]
+            }
+            "mark" => {
+                lg.mark_flushed();
+                vec![]
+            }
+            "needs" => vec![lg.needs_flush() as u64],
+            _ => vec![99],
+        };
+        let t1 = clk.after();
+        let op = json!({"t": t, "id": id, "a": s["a"], "w": s["w"], "ids": s["ids"]});
+        out.push(
+            json!({"ev": "op", "run": bi, "cap": cap, "ctor": ctor, "iv": iv_ms * 1000, "op": op, "ret": ret,
+                   "pn": s["pn"], "t0": t0, "t1": t1, "obs": obs(other)})
+            .to_string(),
+        );
+    }
+    out
+}
+
+pub fn main(args: &[String]) -> Res<()> {
+    let beh = read_jsonl(&arg(args, "--behaviours").ok_or("--behaviours")?)?;
+    let out = arg(args, "--out").ok_or("--out")?;
+    let threads: usize = arg(args, "--threads").map(|s| s.parse().unwrap()).unwrap_or(32);
+    let t = std::time::Instant::now();
+    let chunks = par_map(&beh, threads, run_one);
+    let n = write_lines(&out, &chunks)?;
+    println!("{}", json!({"behaviours": beh.len(), "events": n, "wall_ms": t.elapsed().as_millis() as u64}));
+    Ok(())
 }
